@@ -1,12 +1,28 @@
 import Kdf.Model.Pgt
+import Kdf.Model.PgtAarch64
+import Kdf.Model.PgtArm
+import Kdf.Model.PgtS390x
+import Kdf.Model.PgtPpc64
 /-!
 # Per-architecture page-table step functions not covered by `Kdf/Model/Pgt.lean`
 (`aarch64.c`, `arm.c`, `s390x.c`, `ppc64.c`) — C02
+
+Each handler lives in its own file (`PgtAarch64`, `PgtArm`, `PgtS390x`, `PgtPpc64`);
+`extra` is the part of the `switch` in `next_step_pgt` (step.c) that dispatches to them.
 -/
 namespace Kdf.Model.PgtArch
 open Kdf.Model.Pgt
 
 /-- dispatcher plugged into `nextStepPgt` -/
-def extra : Extra := fun _mem _t _pteMask _pf _s => none
+def extra : Extra := fun mem t pteMask pf s =>
+  match pf.fmt with
+  | .aarch64 => some (Kdf.Model.PgtAarch64.pgtAarch64 mem t pteMask pf s)           -- pgt_aarch64
+  | .aarch64Lpa => some (Kdf.Model.PgtAarch64.pgtAarch64Lpa mem t pteMask pf s)     -- pgt_aarch64_lpa
+  | .aarch64Lpa2 => some (Kdf.Model.PgtAarch64.pgtAarch64Lpa2 mem t pteMask pf s)   -- pgt_aarch64_lpa2
+  | .arm => some (Kdf.Model.PgtArm.pgtArm mem t pteMask pf s)                       -- pgt_arm
+  | .s390x => some (Kdf.Model.PgtS390x.pgtS390x mem t pteMask pf s)                 -- pgt_s390x
+  | .ppc64LinuxRpn30 =>
+    some (Kdf.Model.PgtPpc64.pgtPpc64LinuxRpn30 mem t pteMask pf s)                 -- pgt_ppc64_linux_rpn30
+  | _ => none
 
 end Kdf.Model.PgtArch
